@@ -4,6 +4,7 @@ import (
 	"fmt"
 	"go/token"
 	"go/types"
+	"math"
 	"math/big"
 	"path/filepath"
 	"strings"
@@ -477,6 +478,51 @@ func init() {
 	}
 	intrinsics["internal/bytealg.Equal"] = intrinsics["bytes.Equal"]
 	intrinsics["internal/bytealg.Compare"] = intrinsics["bytes.Compare"]
+	// sort.Slice / sort.SliceStable: a stable insertion sort driven by the caller's less closure
+	// (any correct sort gives the same result for SliceStable; for Slice the order of equal
+	// elements is unspecified and this picks the stable one)
+	sortSlice := func(c *Ctx, fr *frame, fn *ssa.Function, args []value, pos token.Pos) value {
+		ifc, ok := args[0].(iface)
+		if !ok {
+			c.unsupported("sort.Slice on %T", args[0])
+		}
+		sl, ok := ifc.v.([]value)
+		if !ok {
+			c.unsupported("sort.Slice on %T", ifc.v)
+		}
+		for i := 1; i < len(sl); i++ {
+			for j := i; j > 0; j-- {
+				r := c.call(fr, pos, args[1], []value{CI(int64(j)), CI(int64(j - 1))})
+				if !c.decideBool(asTerm(r), pos) {
+					break
+				}
+				sl[j], sl[j-1] = sl[j-1], sl[j]
+			}
+		}
+		return nil
+	}
+	intrinsics["sort.Slice"] = sortSlice
+	intrinsics["sort.SliceStable"] = sortSlice
+	// concrete floating point library calls (floats are never symbolic in this engine)
+	for name, f := range map[string]func(float64) float64{"math.Log": math.Log, "math.Log2": math.Log2, "math.Log10": math.Log10, "math.Exp": math.Exp,
+		"math.Sqrt": math.Sqrt, "math.Floor": math.Floor, "math.Ceil": math.Ceil, "math.Abs": math.Abs, "math.Round": math.Round, "math.Trunc": math.Trunc} {
+		f := f
+		intrinsics[name] = func(c *Ctx, fr *frame, fn *ssa.Function, args []value, pos token.Pos) value {
+			x, ok := args[0].(float64)
+			if !ok {
+				c.unsupported("floating point library call on a non-concrete value")
+			}
+			return f(x)
+		}
+	}
+	intrinsics["math.Pow"] = func(c *Ctx, fr *frame, fn *ssa.Function, args []value, pos token.Pos) value {
+		x, ok := args[0].(float64)
+		y, ok2 := args[1].(float64)
+		if !ok || !ok2 {
+			c.unsupported("floating point library call on a non-concrete value")
+		}
+		return math.Pow(x, y)
+	}
 	intrinsics["math/bits.Len64"] = func(c *Ctx, fr *frame, fn *ssa.Function, args []value, pos token.Pos) value {
 		return bitLenTerm(asTerm(args[0]), 64)
 	}
